@@ -592,12 +592,12 @@ encodeResponse:
         *alertDescription = (unsigned char)ssl->err;
         *alertLevel = SSL_ALERT_LEVEL_FATAL;
         rc = tls13EncodeAlert(ssl, ssl->err, &tmp, requiredLen);
-        if (rc >= 0)
-        {
-            /* This is always a fatal alert: flag the session as failed
-               so that no further records are accepted on it. */
-            ssl->flags |= SSL_FLAGS_ERROR;
-        }
+        /* This is always a fatal alert: flag the session as failed so
+           that no further records are accepted and nothing more is
+           encrypted on it - also when the alert itself does not fit the
+           buffer (SSL_FULL: we are called again with a larger one) or
+           cannot be written at all. */
+        ssl->flags |= SSL_FLAGS_ERROR;
     }
     else
     {
